@@ -544,6 +544,27 @@ func c01Drops(a *An, df *DecodeFacts, rule string) {
 		a.R.ob(rule, key, "the handler returns an empty event only for a permitted reason (unknown wd; IN_IGNORED/IN_UNMOUNT; IN_MOVE_SELF of a recursive watch; IN_DELETE_SELF already reported by the watched parent)",
 			a.P.instrPos(r), ok2, wit)
 	}
+	// the "parent is watched too" lookup comes after this watch's own path entry was removed: otherwise a watch on "." or
+	// "/" (whose parent directory is itself) finds itself and suppresses its own Remove
+	if tf := findTables(a); tf != nil {
+		var look, del *Visit
+		for _, v := range hv {
+			if lk, ok := v.Instr.(*ssa.Lookup); ok && v.Ctx.fieldOfValue(lk.X) == tf.pathTable && strings.Contains(stripIDs(v.Ctx.path(lk.Index)), "filepath.Dir(") && look == nil {
+				look = v
+			}
+		}
+		if look != nil {
+			for _, v := range hv {
+				if args, ok := isBuiltinCall(v.Instr, "delete"); ok && v.Ctx.fieldOfValue(args[0]) == tf.pathTable && v.Seq < look.Seq {
+					if h, _, err := implies(look.Cond, v.Cond); err == nil && h {
+						del = v
+					}
+				}
+			}
+			a.R.ob(rule, "parent-lookup:after-own-removal", "the lookup of the parent directory in the path table happens after this watch's own entry was deleted (a watch on \".\" or \"/\" must not find itself as its parent)", a.P.instrPos(look.Instr), del != nil,
+				"a path-table delete that precedes the lookup on every path to it")
+		}
+	}
 	a.R.fact("handler %s: %d return(s), %d empty-event return(s); translator %s", shortFn(df.Handler), nRet, nZero, translator)
 	if nRet == 0 {
 		a.R.fail("no return of the handler was visited (vacuous)")
@@ -624,7 +645,7 @@ func c01Overflow(a *An, df *DecodeFacts, rule string) {
 	okCond, _ := ovf.Cond.everyConj(func(c Conj) bool { return c.has(func(l Lit) bool { return isBitLit(l, "IN_Q_OVERFLOW", a) }) })
 	// T: header condition ∧ bit(OVF) must imply the call's condition (no extra guard)
 	hv := visitOf(w, df.Loop.Header.Instrs[len(df.Loop.Header.Instrs)-1])
-	body := visitOf(w, df.RecordIdx)
+	body := visitOf(w, df.BodyAnchor)
 	extra := true
 	wit := "reaching condition " + stripIDs(ovf.Cond.String())
 	if hv != nil && body != nil {
